@@ -16,9 +16,11 @@ pub enum Class {
     Closure = 5,
     Into = 6,
     IterNext = 7,
+    /// `Allocator::allocate` of the collection's (custom) allocator
+    Alloc = 8,
 }
 
-pub const CLASSES: [Class; 8] = [
+pub const CLASSES: [Class; 9] = [
     Class::Hash,
     Class::BuildHasher,
     Class::Eq,
@@ -27,6 +29,7 @@ pub const CLASSES: [Class; 8] = [
     Class::Closure,
     Class::Into,
     Class::IterNext,
+    Class::Alloc,
 ];
 
 impl Class {
@@ -40,11 +43,12 @@ impl Class {
             Class::Closure => "closure",
             Class::Into => "into",
             Class::IterNext => "iter_next",
+            Class::Alloc => "alloc",
         }
     }
 }
 
-const N: usize = 8;
+const N: usize = 9;
 #[allow(clippy::declare_interior_mutable_const)]
 const Z: AtomicU64 = AtomicU64::new(0);
 static COUNTS: [AtomicU64; N] = [Z; N];
